@@ -115,7 +115,7 @@ def _eval_shard(args):
     return idx, p.returncode, p.stdout, p.stderr
 
 
-def classify(corr_module, coq_cases, shard=400, extra_require=""):
+def classify(corr_module, coq_cases, shard=400, extra_require="", tagged=False):
     """coq_cases: list of Gallina terms of type (case * out).
     Evaluates Verif.Common.Corr.run on them with the property's spec_ok/model/out_eqb and
     returns {index: code} for the non-zero codes (bit0: impl<>spec, bit1: impl<>model),
@@ -128,7 +128,8 @@ def classify(corr_module, coq_cases, shard=400, extra_require=""):
     for k in range(0, len(coq_cases), shard):
         chunk = coq_cases[k:k + shard]
         body = ("Definition cs : list (case * out) := [\n  " + ";\n  ".join(chunk) + "\n].\n"
-                "Eval vm_compute in (VERIF_BEGIN, Corr.run spec_ok model out_eqb cs, VERIF_END).\n")
+                + ("Eval vm_compute in (VERIF_BEGIN, Corr.run_tagged spec_ok model out_eqb tag cs, VERIF_END).\n" if tagged else
+                   "Eval vm_compute in (VERIF_BEGIN, Corr.run spec_ok model out_eqb cs, VERIF_END).\n"))
         jobs.append((k // shard, header, body, workdir))
     codes, errors = {}, []
     with ThreadPoolExecutor(max_workers=int(os.environ.get("VERIF_COQ_JOBS", "4"))) as ex:
